@@ -7,7 +7,7 @@
 //!   emitter (`emit_struct`) on a declaration carrying `@derive(D1, D2, ...)` and prints the names
 //!   of the `#[derive(...)]` attribute of the emitted struct, in order, comma separated
 //!   (`serde::Serialize` -> `Serialize`), or `ERR <message>`.
-//! `vharness run c20 fields` — one line per case: `<source.incn>`. Same pipeline; prints `OK Name:f1,f2;...`: the field
+//! `vharness run c20 fields` — one line per case: `<source.incn>`. Same pipeline; prints `OK Name:f1,f2@attrs;...`: the field
 //!   names of every emitted struct in emission order (the order derived Ord/Serialize use), or `ERR <message>`.
 //! `vharness run c20 gen` — one line per case: `<source.incn>\t<out_dir>\t<project_name>`. Runs the
 //!   library pipeline of `incan build` (src/cli/commands.rs prepare_project, single-file branch) up
@@ -171,7 +171,24 @@ fn fields_case(line: &str) -> String {
                             .enumerate()
                             .map(|(i, f)| f.ident.as_ref().map(|x| x.to_string()).unwrap_or_else(|| i.to_string()))
                             .collect();
-                        out.push(format!("{}:{}", st.ident, names.join(",")));
+                        // every attribute other than derive/allow/doc on the struct or on a field (e.g. #[serde(..)])
+                        let mut attrs: Vec<String> = Vec::new();
+                        let mut note = |a: &syn::Attribute, at: &str| {
+                            let p = a.path();
+                            if !(p.is_ident("derive") || p.is_ident("allow") || p.is_ident("doc")) {
+                                use quote::ToTokens;
+                                attrs.push(format!("{} {}", at, a.to_token_stream().to_string().replace([';', ',', ':', '@'], " ")));
+                            }
+                        };
+                        for a in &st.attrs {
+                            note(a, "struct");
+                        }
+                        for (i, f) in st.fields.iter().enumerate() {
+                            for a in &f.attrs {
+                                note(a, &names[i]);
+                            }
+                        }
+                        out.push(format!("{}:{}@{}", st.ident, names.join(","), attrs.join(" & ")));
                     }
                 }
                 format!("OK {}", out.join(";"))
